@@ -625,6 +625,9 @@ func (pc *parentController) syncParentObject(parent *unstructured.Unstructured) 
 		if err != nil {
 			return fmt.Errorf("can't remove finalizer for %v %v/%v: %w", parent.GetKind(), parent.GetNamespace(), parent.GetName(), err)
 		}
+		// The object we got back is the live one, which may be newer than what the
+		// hooks have seen: status.observedGeneration must keep naming the latter.
+		updatedParent.SetGeneration(parent.GetGeneration())
 		parent = updatedParent
 	}
 
